@@ -656,25 +656,21 @@ Section Typed.
   Qed.
 
   (* other traffic (sends and receives under other ids) does not touch the entry *)
-  Inductive ev := ESend (m : list N) (i : pval) | ERecv (data : list (list N * pval)).
-  Definition ev_step (st : pstate) (e : ev) : pstate :=
-    match e with
-    | ESend m i => fst (send_request reg st m i)
-    | ERecv data => fst (structure_message obj structure reg st data)
-    end.
   Definition other_id (i : pval) (e : ev) : bool :=
     match e with
     | ESend _ j => negb (id_eqb i j)
+    | ENotify _ => true        (* a notification - $/cancelRequest for i included - answers nothing *)
     | ERecv data => match aget k_id data with Some j => negb (id_eqb i j) | None => true end
     end.
 
   Lemma ev_step_other i st e :
-    other_id i e = true -> rt_get i (rtypes (ev_step st e)) = rt_get i (rtypes st).
+    other_id i e = true -> rt_get i (rtypes (ev_step obj structure reg st e)) = rt_get i (rtypes st).
   Proof.
-    destruct e as [m j|data]; cbn [other_id ev_step]; intro H.
+    destruct e as [m j|m|data]; cbn [other_id ev_step]; intro H.
     - apply negb_true_iff in H. unfold send_request.
       destruct (find_method reg m) as [r|]; [destruct (m_request r)|]; cbn [fst rtypes];
         try reflexivity; apply rt_get_set_neq; exact H.
+    - unfold notify. destruct (find_method reg m) as [r|]; [destruct (m_request r)|]; reflexivity.
     - unfold structure_message.
       destruct (negb (amem k_jsonrpc data)); [reflexivity|].
       destruct (aget k_id data) as [j|].
@@ -690,7 +686,7 @@ Section Typed.
 
   Theorem rtype_survives_other_ids i evs : forall st,
     forallb (other_id i) evs = true ->
-    rt_get i (rtypes (fold_left ev_step evs st)) = rt_get i (rtypes st).
+    rt_get i (rtypes (fold_left (ev_step obj structure reg) evs st)) = rt_get i (rtypes st).
   Proof.
     induction evs as [|e evs IH]; intros st H; cbn [fold_left]; [reflexivity|].
     cbn [forallb] in H. apply andb_true_iff in H as [He H].
@@ -706,7 +702,7 @@ Section Typed.
     forallb (other_id i) evs = true ->
     amem k_jsonrpc data = true -> aget k_id data = Some i ->
     amem k_error data = false -> aget k_method data = None ->
-    snd (structure_message obj structure reg (fold_left ev_step evs st1) data) =
+    snd (structure_message obj structure reg (fold_left (ev_step obj structure reg) evs st1) data) =
       run_structure obj structure
         (match get_result_type reg m with Some t => TRegistryRes t | None => TGeneric GResponse end) data.
   Proof.
@@ -1040,3 +1036,16 @@ Section Stream.
     reflexivity.
   Qed.
 End Stream.
+
+(* ================= histories: the reference of a trip is unaffected by what the requester does
+   in between under other ids (cancel notification for the pending id, a second request, other
+   notifications, stray frames) ================= *)
+Theorem trip_after_history obj structure reg h i evs :
+  forallb (other_id i) evs = true ->
+  model_trip_after obj structure reg h i evs = model_trip reg h i.
+Proof.
+  intro H. unfold model_trip_after, model_trip.
+  destruct (helper_call reg st0 h i) as [st [|has_id m [ty|]]]; try reflexivity.
+  destruct (find_method reg m); [|reflexivity].
+  rewrite (rtype_survives_other_ids obj structure reg i evs st H). reflexivity.
+Qed.
